@@ -296,6 +296,10 @@ func c20Scenario() *Scenario {
 	for _, sr := range [][2]string{{"A", "R1"}, {"A", "R2"}, {"B", "R1"}, {"B", "R3"}, {"C", "R2"}} {
 		pre(Action{Name: fmt.Sprintf("create(%s->%s)", sr[0], sr[1]), Dt: ms, Txs: tx1(model.Msg{Kind: model.StrCreate, From: sr[0], To: sr[1], Den: mc.Nund, Amt: "600", Rate: 1})})
 	}
+	// receivers whose addresses are not 20 bytes long
+	pre(Action{Name: "create(B->L32:M)", Dt: ms, Txs: tx1(model.Msg{Kind: model.StrCreate, From: "B", To: "L32:M", Den: mc.Nund, Amt: "600", Rate: 1})})
+	pre(Action{Name: "create(C->L08:N)", Dt: ms, Txs: tx1(model.Msg{Kind: model.StrCreate, From: "C", To: "L08:N", Den: mc.Nund, Amt: "600", Rate: 1})})
+	s.Tracked = append(s.Tracked, "L32:M", "L08:N")
 	// letters explored after the prefix
 	add(
 		mkRaise("P2", 13),
